@@ -96,7 +96,8 @@ def run_bulk(v, pid, wd, thorough):
             # receivers that stay slow to the very end: the proxy still holds data when the sender's FIN arrives
             # (read size, pause per read, SO_RCVBUF of the receiver); with these the tail of a transfer was lost by the original splice loop
             grid = [(65536, 0.001, 262144), (262144, 0.001, 16384), (262144, 0.01, 16384), (16384, 0.001, 16384), (16384, 0.003, 262144), (65536, 0.003, 4 * MB)]
-            nslow = 36 if thorough else 18
+            # the tail loss of the original splice loop showed in about one such tunnel in ten: many of them where it matters
+            nslow = (72 if thorough else 36) if splice else 8
             for k in range(nslow):
                 up = k % 2 == 0
                 jobs.append((["http", "socks5", "socks4"][k % 3], "direct" if k % 6 else "uphttp", 8 * MB if up else 0, 0 if up else 8 * MB, 0.0, grid[k % len(grid)]))
